@@ -29,12 +29,16 @@ def clip(src):
 
 
 def budget_for(w, files):
+    """The step budget of a pipeline call from the number of tokens. The tokens are counted by the real lexer, itself under a
+    budget from the number of characters (a lexer that does not finish in time is a violation, not a missing measurement)."""
     t = 0
     for _, src in files:
-        r = w.lex(src)
+        r = w.lex(src, budget=4000 + 40 * (len(src) + 1) ** 2)
         if r.get('k') == 'ok':
             t += len(r['toks'])
         else:
+            if r.get('k') == 'panic' and r.get('msg', '').startswith('verif: step budget'):
+                return ('lexer', r.get('msg')), len(src)
             t += len(src.encode('utf-8', 'replace')) // 2
     return 4000 + 40 * (t + 1) ** 2, t
 
@@ -119,9 +123,12 @@ def crash_sig(files, annotate):
 def evaluate(w, files, annotate, part, origin, wp=None):
     """files: [(path, src)]. Returns the response."""
     budget, t = budget_for(w, files)
+    wit = {'kind': 'pipe', 'files': files, 'annotate': annotate, 'origin': origin}
+    if isinstance(budget, tuple):
+        part.violation('steps:lex_chars:while-counting-tokens:' + shape_tags(files), dict(wit, characters=t, msg=budget[1]))
+        return {'k': 'panic', 'msg': budget[1]}
     r = w.pipe(files, annotate=annotate, budget=budget)
     k = r.get('k')
-    wit = {'kind': 'pipe', 'files': files, 'annotate': annotate, 'origin': origin}
     if k == 'timeout':
         part.inconc('watchdog')     # wall clock is never a verdict
         part.sample({'watchdog-input': files}, cap=5)
